@@ -100,8 +100,15 @@ def judge (op : List String) (go : String) : Verdict :=
       match parseStr s, parseStr n with
       | some s, some n =>
         let mi : Int := match s.indexOf n.bytes with | some (i, _) => i | none => -1
+        let first := indexFrom s.bytes n.bytes (s.bytes.length + 1) 0
+        -- the aligned occurrence starts inside an earlier byte-level occurrence that is not aligned
+        let overlapsRejected : Bool := match s.indexOf n.bytes, first with
+          | some (_, q), some p => !n.bytes.isEmpty && p < q && q < p + n.bytes.length
+          | _, _ => false
         let tags := ["index", if n.bytes.isEmpty then "empty-needle" else if mi < 0 then
-            (if (indexFrom s.bytes n.bytes (s.bytes.length + 1) 0).isSome then "misaligned-only" else "absent") else "found"]
+            (if first.isSome then "misaligned-only" else "absent")
+            else if overlapsRejected then "found-overlapping-a-misaligned-occurrence"
+            else if first != (s.indexOf n.bytes).map (·.2) then "found-after-misaligned" else "found"]
         fin ("ok:" ++ toString mi) (some ("ok:" ++ toString (specIndex s n.bytes))) tags
       | _, _ => .skip "bad-op"
     | "contains", [s, n] =>
@@ -143,6 +150,20 @@ def judge (op : List String) (go : String) : Verdict :=
         -- the normalised bytes come from the harness; the model contributes the raw concatenation
         let m := "ok:" ++ toHex (if stable then a.concatBytes b else r.bytes) ++ ":" ++ toString r.length
         fin m none ["concat", if stable then "nfc-stable" else "renormalised"]
+      | _, _, _ => .skip "bad-op"
+    | "mconcat", [how, a, b, r] =>
+      match parseStr a, parseStr b, parseStr r with
+      | some a, some b, some r =>
+        -- spec: the result is the NFC string `r` (supplied by the harness) and every observation of its
+        -- length is the number of clusters of `r`, whatever was evaluated on the operands before
+        let n := toString r.clusters.length
+        let sp := "ok:" ++ toHex r.clusters.flatten ++ ":" ++ n ++ ":" ++ n ++ ":1:" ++ n
+        let stable := a.concatBytes b == r.bytes
+        let m := "ok:" ++ toHex (if stable then a.concatBytes b else r.bytes) ++ ":" ++ toString r.length ++ ":" ++
+          toString r.clusters.length ++ ":1:" ++ toString r.length
+        fin m (some sp) ["mconcat", "measured-by-" ++ how,
+          if r.clusters.length < a.clusters.length + b.clusters.length then "junction-merges" else "junction-clean",
+          if stable then "nfc-stable" else "renormalised"]
       | _, _, _ => .skip "bad-op"
     | "join", sep :: r :: parts =>
       match parseStr sep, parseStr r, parts.mapM parseStr with
